@@ -904,13 +904,17 @@ fn handle_code_action(
 
     let fixes = get_fixes(&src, &path);
 
+    // A client may send a range that ends before it starts. Treat
+    // it as the same region.
+    let requested_range = normalized_range(&params.range);
+
     // Convert fixes to code actions
     let mut actions: Vec<CodeActionResponse> = vec![];
     for fix in fixes {
         let range = garden_pos_to_lsp_range(&src, &fix.position);
 
         // Only include fixes that overlap with the requested range
-        if !ranges_overlap(&range, &params.range) {
+        if !ranges_overlap(&range, &requested_range) {
             continue;
         }
 
@@ -937,23 +941,23 @@ fn handle_code_action(
         actions.push(CodeActionResponse::CodeAction(action));
     }
 
-    if let Some(action) = build_extract_function_action(&src, &path, uri, &params.range) {
+    if let Some(action) = build_extract_function_action(&src, &path, uri, &requested_range) {
         actions.push(CodeActionResponse::CodeAction(action));
     }
 
-    if let Some(action) = build_extract_variable_action(&src, &path, uri, &params.range) {
+    if let Some(action) = build_extract_variable_action(&src, &path, uri, &requested_range) {
         actions.push(CodeActionResponse::CodeAction(action));
     }
 
-    if let Some(action) = build_destructure_action(&src, &path, uri, &params.range) {
+    if let Some(action) = build_destructure_action(&src, &path, uri, &requested_range) {
         actions.push(CodeActionResponse::CodeAction(action));
     }
 
-    if let Some(action) = build_wrap_in_dbg_action(&src, &path, uri, &params.range) {
+    if let Some(action) = build_wrap_in_dbg_action(&src, &path, uri, &requested_range) {
         actions.push(CodeActionResponse::CodeAction(action));
     }
 
-    if let Some(action) = build_add_type_annotation_action(&src, &path, uri, &params.range) {
+    if let Some(action) = build_add_type_annotation_action(&src, &path, uri, &requested_range) {
         actions.push(CodeActionResponse::CodeAction(action));
     }
 
@@ -1285,6 +1289,21 @@ fn whole_document_range(src: &str) -> Range {
             line: end_line as u32,
             character: end_character as u32,
         },
+    }
+}
+
+/// `range` with its start and end swapped if it ends before it
+/// starts.
+fn normalized_range(range: &Range) -> Range {
+    let starts_after_end = range.start.line > range.end.line
+        || (range.start.line == range.end.line && range.start.character > range.end.character);
+    if starts_after_end {
+        Range {
+            start: range.end.clone(),
+            end: range.start.clone(),
+        }
+    } else {
+        range.clone()
     }
 }
 
